@@ -40,6 +40,11 @@ def run(prog, tier):
     check_tokens(R, prog)
     check_writer(R, prog)
     check_write_through(R, prog, P, [("cnfgen.formula.cnfio", "CNFio", ("to_dimacs", "to_file"))])
+    # the problem line states the formula's variable count: the count-keeping discipline of C10 is a mechanism of the round trip
+    from ._families import borrow as _borrow
+    from . import c10 as _c10
+    _borrow(R, P, "COUNT", prog, _c10.check_check_first, floor=1)
+    _borrow(R, P, "COUNT", prog, _c10.check_numvar, floor=4)
     return R
 
 
